@@ -516,13 +516,17 @@ def check_segments(rep, pid):
                 break
             if not check_window(rep, carrier, c, m, want_idx, dict(d, segment=j), handles=False):
                 break
-        if n > 1:
-            for k in m:
-                want = np.array([[m[k][pid[i]], m[k][i]] for i in range(1, n)], dtype=m[k].dtype)
-                ok, v = rep.guard("Compartments.get_ndata", "tree-segments-are-parent-child", dict(d, key=k), lambda: comps.get_ndata(k))
-                if ok and not eq(v, want):
-                    rep.viol("Compartments.get_ndata", "tree-segments-are-parent-child", dict(d, key=k), lst(v), lst(want))
-                    break
+        for k in m:  # also for the one-node tree: no segment, the documented (n_sample, 2) shape with n_sample = 0
+            want = np.array([[m[k][pid[i]], m[k][i]] for i in range(1, n)], dtype=m[k].dtype).reshape(n - 1, 2)
+            ok, v = rep.guard("Compartments.get_ndata", "tree-segments-are-parent-child", dict(d, key=k), lambda: comps.get_ndata(k))
+            if ok and (np.shape(v) != (n - 1, 2) or not eq(v, want)):
+                rep.viol("Compartments.get_ndata", "tree-segments-are-parent-child", dict(d, key=k), f"shape {np.shape(v)} {lst(v)}", f"shape {(n - 1, 2)} {lst(want)}")
+                break
+        for meth, cols in (("xyz", ("x", "y", "z")), ("xyzr", ("x", "y", "z", "r"))):
+            want = np.array([[[m[k][pid[i]] for k in cols], [m[k][i] for k in cols]] for i in range(1, n)], dtype=np.float64).reshape(n - 1, 2, len(cols))
+            ok, v = rep.guard(f"Compartments.{meth}", "tree-segments-are-parent-child", dict(d, accessor=meth), lambda: getattr(comps, meth)())
+            if ok and (np.shape(v) != want.shape or not np.array_equal(np.asarray(v, dtype=np.float64), want)):
+                rep.viol(f"Compartments.{meth}", "tree-segments-are-parent-child", dict(d, accessor=meth), f"shape {np.shape(v)}", f"shape {want.shape} with the (parent, child) coordinates")
     if tree_equals(t, m):
         rep.viol("Tree.get_compartments", "tree-segments-are-parent-child", {}, f"reading changed columns {tree_equals(t, m)}", "reads do not modify")
 
